@@ -501,7 +501,7 @@ def _eval_chunk(ctx, name, kind, cases, flags):
     defs = "Definition cs : list fcase := [\n%s\n].\n" % ";\n".join(case_coq(o, r) for o, r in cases)
     evals = [("mismatch", "bad_indices fagree cs 0")]
     if kind == "legal":
-        evals += [("violations", "bad_indices fok cs 0"), ("illegal", "bad_indices flegal cs 0")]
+        evals += [("violations", "bad_indices fok2 cs 0"), ("illegal", "bad_indices flegal cs 0")]
     if flags is not None:
         defs += "Definition plt_flags : list (skind * N) := %s.\n" % flags_term(flags)
         evals.append(("flags_bad", "bad_indices (fun p => kind_flags (fst p) =? snd p) plt_flags 0"))
@@ -1157,7 +1157,8 @@ def run_inproc(ctx, objdir):
         ctx.violation("C11 violated in-process: after non-local control flow a return (or the second return of "
                       "setjmp, or the unwinder's resume address) does not reach its real caller / the number of "
                       "exit hooks differs from the number of hooked functions sharing the frame / an ENTRY record "
-                      "carries a depth other than the number of live traced functions",
+                      "carries a depth other than the number of live traced functions / the written record stream is "
+                      "not a faithful stream (replay would not show every record at its depth)",
                       {"mode": "inproc", "case": case_json(ops, res)}, True)
     mism = [("legal", i) for i in ev["mismatch_legal"]] + [("free", i) for i in ev["mismatch_free"]]
     if ev["flags_bad"]:
